@@ -54,7 +54,7 @@ def judge_accepted(dyn, kind, i, trial, es, old_sites, maxlength, mvlist, cap, c
 
 
 def shoot_fn(dyn, kind, i, old_sites, maxlength, move="sh", cap=None, n_jumps=None,
-             allowmaxlength=False, move_of=None, forced_u=None):
+             allowmaxlength=False, move_of=None, forced_u=None, old_label=None):
     """Returns fn(chooser) executing one real move; the record carries the C09 verdicts."""
     B = dyn.B
     mvlist = moves_list(B, move_of or ({i: move} if kind == "plus" else {}))
@@ -70,7 +70,9 @@ def shoot_fn(dyn, kind, i, old_sites, maxlength, move="sh", cap=None, n_jumps=No
         eng.rgen.tag = "eng"
         es = lat.ens_set("minus" if kind == "minus" else ("zero" if i == 0 else "plus"), B, maxlength,
                          move=move, cap=cap, n_jumps=n_jumps, allowmaxlength=allowmaxlength, rgen=rg, i=i)
-        old = lat.mk_path(old_sites, maxlen=maxlength, generated=(move, 0.0, 0, 0), number=7)
+        # how the old path was produced (the label the code keeps in path.generated): by default the
+        # ensemble's own move; old_label = 'wf'/'sh'/'00' models a path that arrived through swaps
+        old = lat.mk_path(old_sites, maxlen=maxlength, generated=(old_label or move, 0.0, 0, 0), number=7)
         before = lat.snapshot(old)
         clauses = []
         fnc = tis.shoot if move == "sh" else tis.wire_fencing
